@@ -53,9 +53,49 @@ def as_violation(got, want):
     return None
 
 
+def fresh_thread_cases(out):
+    """the FIRST structured check a thread ever makes (per-thread state that exists on the importing thread only would
+    fail exactly here): binding, comparing and the three composite forms on a thread started for the purpose, each
+    compared with what the documented meaning gives"""
+    import threading
+
+    import impl
+    from jaxtyping import jaxtyped
+
+    T, S = PyTree[int, "T"], PyTree[int, "S"]
+    scenarios = [
+        ("bind then compare", [((1, 2), T, "T"), ((3, 4), T, "T"), ((1, 2, 3), T, "F")]),
+        ("compose", [((1, 2), T, "T"), ([0], S, "T"), ([(1, 2)], PyTree[int, "S T"], "T"), ([(1, 2), (3, 4)], PyTree[int, "S T"], "F")]),
+        ("prefix / suffix", [((1, 2), T, "T"), (([5], [6, 7]), PyTree[int, "T ..."], "T"), ({"a": (1, 2), "b": (3, 4)}, PyTree[int, "... T"], "T"), ({"a": (1, 2), "b": 3}, PyTree[int, "... T"], "F")]),
+    ]
+    for sname, steps in scenarios:
+        box = {}
+
+        def work():
+            got = []
+            try:
+                with jaxtyped("context"):
+                    for x, ann, _ in steps:
+                        got.append(impl.check_once(x, ann))
+            except BaseException as e:  # noqa: BLE001
+                got.append("raised " + type(e).__name__)
+            box["got"] = got
+
+        t = threading.Thread(target=work)
+        t.start()
+        t.join(60)
+        want = [w for *_, w in steps]
+        out.case(("fresh-thread", sname), True, sample={"scenario": sname, "verdicts": box.get("got")})
+        if box.get("got") != want:
+            out.violation("fresh-thread", f"the first structured PyTree checks of a freshly started thread ({sname}): verdicts {box.get('got')}, the documented meaning gives {want}",
+                          {"fresh_thread": sname})
+            return
+
+
 def run(tier, seed, out, drv, facts):
     rng = Rng(seed, "C09")
     thorough = tier == "thorough"
+    fresh_thread_cases(out)
     trees = pool(24 if thorough else 12)
     triples = list(itertools.product(trees, repeat=3))
     if thorough:
@@ -290,6 +330,9 @@ def run(tier, seed, out, drv, facts):
 
 
 def replay(rep, out, drv, facts):
+    if "fresh_thread" in rep:
+        fresh_thread_cases(out)
+        return
     if rep.get("spelling"):
         rng = Rng(0, "replay")
         a, _ = impl_prog.run_program(rep["program"], "typeguard", rng)
